@@ -112,7 +112,8 @@ impl BufferParser for Parser {
                 }
                 2 => {
                     self.avatar_state = 3;
-                    let repeat_count = ch as usize;
+                    // the count is one byte in the protocol; `ch` can be any code point (unicode input)
+                    let repeat_count = (ch as usize).min(u8::MAX as usize);
                     for _ in 0..repeat_count {
                         self.ansi_parser.print_char(buf, current_layer, caret, self.avt_repeat_char)?;
                     }
